@@ -177,7 +177,17 @@ class Walk:
             return
         by_pickle = (k >> 5) % 2 == 1
         case = self.case({'forked_by': 'pickle round trip' if by_pickle else 'copy.deepcopy'})
-        cp = guard('copying an auction in progress raises', case, (lambda: pickle.loads(pickle.dumps(self.bp))) if by_pickle else (lambda: copy.deepcopy(self.bp)))
+        if by_pickle:
+            # nothing promises that an auction can be pickled: if it cannot, there is no copy to judge (skipped and counted);
+            # a round trip that succeeds must give an auction in the same state
+            try:
+                cp = pickle.loads(pickle.dumps(self.bp))
+            except Exception:  # noqa
+                if self.stats is not None:
+                    self.stats.excluded['auction object could not be pickled (fork skipped)'] += 1
+                return
+        else:
+            cp = guard('copying an auction in progress raises', case, lambda: copy.deepcopy(self.bp))
         sub = Walk.__new__(Walk)
         sub.__dict__.update(self.__dict__)
         sub.bp, sub.calls, sub.stats, sub.is_fork, sub.deep_legal = cp, list(self.calls), None, True, False
